@@ -205,7 +205,43 @@ def drive(prog, ch, timeout=30.0, with_kwargs=True):
     return out
 
 
-def predict(prog, kwargs_digests=True):
+def to_py2(x):
+    """what a value looks like after a trip through a connection configured with py3str_as_py2str=True"""
+    t = type(x)
+    if t is str:
+        return x.encode("utf-8")
+    if t is list:
+        return [to_py2(i) for i in x]
+    if t is tuple:
+        return tuple(to_py2(i) for i in x)
+    if t is dict:
+        return {to_py2(k): to_py2(v) for k, v in x.items()}
+    if t is set:
+        return {to_py2(i) for i in x}
+    if t is frozenset:
+        return frozenset(to_py2(i) for i in x)
+    return x
+
+
+def predict(prog, kwargs_digests=True, py2=False):
+    if py2:
+        plain = predict(prog, kwargs_digests)
+        out = []
+        for e in plain:
+            if e in ("EOF",) or (isinstance(e, tuple) and e and e[0] == "RemoteError"):
+                out.append(e)
+            elif isinstance(e, tuple) and e and e[0] == "echo":
+                st = [s for s in prog["stmts"] if s[0] == "echo"][sum(1 for o in out if isinstance(o, tuple) and o and o[0] == "echo")]
+                out.append(("echo", digest(to_py2(st[1]))))
+            elif isinstance(e, tuple) and e and e[0] == "kw":
+                names = [s[1] for s in prog["stmts"] if s[0] == "kwarg"]
+                name = names[sum(1 for o in out if isinstance(o, tuple) and o and o[0] == b"kw")]
+                out.append((b"kw", digest(to_py2(prog["kwargs"][name]))))
+            elif isinstance(e, tuple) and e and e[0] == "subchannel":
+                out.append(("subchannel", "Channel", to_py2(e[2])))
+            else:
+                out.append(to_py2(e))
+        return out
     out = []
     for st in prog["stmts"]:
         kind = st[0]
